@@ -202,7 +202,9 @@ def run(tier, seed):
     run = Run("C10", tier, seed, "exploration", floor=300)
     run.rule = ("x in {0, +-1, absolute zero, 1/3, 10^+-30, 60-digit decimals, random rationals} x all 36 ordered scale pairs "
                 "x every spelling pair (576 systematic) plus seeded random triples; operator value, conversion value, "
-                "A->A identity, chains of 2..6 conversions fed by the exact replies, and refusal cases; non-trivial = "
+                "A->A identity, chains of 2..6 conversions fed by the exact replies, and refusal cases (dimensioned operands; a scale "
+                "next to other factors, behind `name =`, inside an exponent or an `of` operand of a target, or followed by tokens after "
+                "a comment / newline); non-trivial = "
                 "distinct (from, to, spelling, spelling) judged with a non-integer x, plus distinct refusal queries")
     run.assumptions = ["textbook maps: K=C+273.15; K=(F+459.67)*5/9; K=Re*5/4+273.15; K=(Ro-7.5)*40/21+273.15; "
                        "K=373.15-De*2/3; K=N*100/33+273.15"]
